@@ -40,6 +40,9 @@ type scItem struct {
 	Altt *scAlt `json:"altt"`
 	Altm *scAlt `json:"altm"`
 	Mb   int    `json:"mb"`
+	// set by a family before rendering (not part of TLC's record)
+	Attr  bool   `json:"-"` // local: written with a <const> attribute
+	MName string `json:"-"` // meth: the method's own name (default "mm"); when set an occurrence of role "mdef" is recorded
 }
 
 // UnmarshalJSON records whether TLC attached a vis set (closers appended at emission have none).
@@ -188,6 +191,12 @@ func scRenderMode(items []scItem, mode int) *scRender {
 	for i, it := range items {
 		switch it.K {
 		case "local":
+			if it.Attr && it.Fl != "none" {
+				rhs := map[string][]interface{}{"bare": {use("u", it.U, it.B, it.Alt)}, "binop": {use("u", it.U, it.B, it.Alt), " + 1"},
+					"call": {"tostring(", use("u", it.U, it.B, it.Alt), ")"}, "table": {"{", use("u", it.U, it.B, it.Alt), "}"}}[it.Fl]
+				add(i, append([]interface{}{"local ", decl("n", it.N, it.ID, "local"), " <const> = "}, rhs...)...)
+				continue
+			}
 			switch it.Fl {
 			case "none":
 				add(i, "local ", decl("n", it.N, it.ID, "local"))
@@ -261,7 +270,11 @@ func scRenderMode(items []scItem, mode int) *scRender {
 			if it.Colon {
 				sep = ":"
 			}
-			add(i, "function ", use("t", it.T, it.Tb, it.Altt), sep+"mm(", decl("p", it.P, it.Pid, "param"), ")")
+			if it.MName != "" {
+				add(i, "function ", use("t", it.T, it.Tb, it.Altt), sep, occ{Slot: "mn", Name: it.MName, Role: "mdef", Kind: "meth"}, "(", decl("p", it.P, it.Pid, "param"), ")")
+			} else {
+				add(i, "function ", use("t", it.T, it.Tb, it.Altt), sep+"mm(", decl("p", it.P, it.Pid, "param"), ")")
+			}
 		case "end":
 			add(i, "end")
 		case "file":
